@@ -126,6 +126,9 @@ static void api_parse (int s, int in, const char *mode, const char *rcs, int sen
       else { int e; LIB (e = G_ERRCODE (slot[s])); if (e != YAEP_NO_MEMORY) mismatch_i ("error_code after an allocation failure", e, YAEP_NO_MEMORY); }
       chk_epoch = -1;
       led_bad_free = led_double_free = led_null_free = led_foreign_free = 0;
+      /* nodes built before the failure are unreachable for the caller; C17 promises a clean return, not
+         their release: this parse's blocks are left out of the final ledger balance */
+      if (cur_epoch < 4096) epoch_mode[cur_epoch] = 9;
       return;
     }
   if (!in_list (rcs, rc)) { char b[16]; sprintf (b, "%d", rc); mismatch ("parse return code", b, rcs); }
